@@ -503,6 +503,10 @@ where
     ///
     /// Zero is returned when the channel has been closed or an error has occurred.
     pub fn capacity(&self) -> usize {
+        if self.closed_rx.borrow().is_some() || self.remote_send_err_rx.borrow().is_some() {
+            return 0;
+        }
+
         match self.tx.upgrade() {
             Some(tx) => tx.capacity(),
             None => 0,
